@@ -10,7 +10,10 @@ META = {
             "(max m from s gives min(m, s); exactly m over an unbounded source), postings_nonneg for whole runs, ordered_sources_drain (a later part is "
             "touched only when all earlier parts are taken in full), on top of the funding algebra (take_exact, take_iff_covered, max_respected, "
             "concat_conserves, portions_sum, portions_shape; allocate_sum_any: no sign condition). Spec is tied to compiler+VM by the end-to-end differential; "
-            "an independent oracle checks non-negativity and exactness of single-send scripts on the implementation's postings.",
+            "independent oracles on the implementation's postings: non-negativity and exactness of single-send scripts (portions with fractional percents, "
+            "denominators up to 10^4, totals at / next to 100 %, amounts up to 2^70), and the ordering clause (ordered-sources: in a single send over an "
+            "ordered, possibly nested list of plain / capped / bounded-overdraft sources in one asset every leaf gives all it can before the next one gives "
+            "anything, computed in Python from the balances; the same account at two non-adjacent places included).",
     "note": "Trusted: Lean kernel (+ Mathlib's linarith/nlinarith/ring1 for the portion arithmetic); Spec; harness pretty-printer. Theorems are about Spec; the lift "
             "to the bytecode VM rests on the differential (until C08's compile_correct). send_exact_allot needs positive portion denominators (the AST "
             "admits a zero denominator the parser never builds).",
@@ -19,59 +22,79 @@ META = {
 }
 
 
+def verdicts(inp, out, exact=None, ordst=None):
+    """the C03 oracles on one accepted outcome: [(signature, what)]"""
+    v = []
+    if "postings" not in out:
+        return v
+    exact = collections.Counter() if exact is None else exact
+    for n, p in enumerate(out["postings"]):
+        if int(p[2]) < 0:
+            v.append(({"property": "C03", "class": "negative-posting"}, "posting %d is negative" % n))
+    # ordering clause, on the postings alone (no Lean model involved)
+    w = ordered_sources_verdict(inp, out, ordst)
+    if w:
+        v.append(({"property": "C03", "class": "ordered-sources"}, w))
+    sends = [s for s in inp["ast"]["stmts"] if s["k"] == "send"]
+    # a send moves the asset it names: with only sends in the script, every posting's asset is one of the stated ones
+    if sends and all(s["k"] != "fail" for s in inp["ast"]["stmts"]):
+        env0, _, _, asset_of0 = resolve_env(inp)
+        stated = set()
+        for s in sends:
+            if s["amt"]["k"] == "all":
+                stated.add(asset_of0(s["amt"]["asset"]))
+            else:
+                m0 = eval_mon(s["amt"]["e"], env0, asset_of0)
+                stated.add(m0[0] if m0 else None)
+        if None not in stated:
+            odd = [p for p in out["postings"] if p[3] not in stated]
+            if odd:
+                alls = any(s["amt"]["k"] == "all" for s in sends)
+                v.append(({"property": "C03", "class": "asset-differs",
+                           "construct": "send-all+overdraft-in-other-asset" if alls and "od-upto" in features(inp) else "other"},
+                          "a posting moves %s although the sends name %s" % (odd[0][3], sorted(stated))))
+    if len(sends) == 1 and sends[0]["amt"]["k"] == "mon":
+        env, bal, acct_of, asset_of = resolve_env(inp)
+        m = eval_mon(sends[0]["amt"]["e"], env, asset_of)
+        tot = sum(int(p[2]) for p in out["postings"])
+        if m is not None:
+            exact["single_send_evaluated"] += 1
+            if '"allot"' in canon(sends[0]):
+                exact["with_portions"] += 1
+                exact["with_portions_amount_ge_1e6"] += 1 if m[1] >= 10 ** 6 else 0
+            if tot > m[1]:
+                v.append(({"property": "C03", "class": "more-than-stated"}, "send of %d moved %d" % (m[1], tot)))
+            elif not has_kept(sends[0]["dst"]) and tot != m[1]:
+                v.append(({"property": "C03", "class": "not-exact", "src": sends[0]["src"]["k"]},
+                          "send of %d without `kept` moved %d" % (m[1], tot)))
+    return v
+
+
 def run(ctx):
     ctx.cov["trusted_base"] = TRUSTED
     ctx.l1()
-    r = run_numscript(ctx, 1500 if ctx.quick else 60000)
+    r = run_numscript(ctx, 2500 if ctx.quick else 60000)
     if r is None:
         return
     inputs, impl, model = r
     compare(ctx, "numscript:spec-vs-vm", inputs, impl, model, proj_impl=lambda i, o: strip(o))
     seen, nontrivial = set(), 0
+    exact, ordst = collections.Counter(), collections.Counter()
+    rp = Replays(ctx, inputs)   # a replay is the case alone when that shows the violation, else (earlier case of the process, case)
     for inp in inputs:
         out = impl.get(inp["id"], {})
         if "postings" not in out:
             continue
-        for n, p in enumerate(out["postings"]):
-            if int(p[2]) < 0:
-                ctx.violation({"property": "C03", "class": "negative-posting"}, "posting %d is negative" % n,
-                              {"area": "numscript", "input": inp, "observed": out})
-        sends = [s for s in inp["ast"]["stmts"] if s["k"] == "send"]
-        # a send moves the asset it names: with only sends in the script, every posting's asset is one of the stated ones
-        if sends and all(s["k"] != "fail" for s in inp["ast"]["stmts"]):
-            env0, _, _, asset_of0 = resolve_env(inp)
-            stated = set()
-            for s in sends:
-                if s["amt"]["k"] == "all":
-                    stated.add(asset_of0(s["amt"]["asset"]))
-                else:
-                    m0 = eval_mon(s["amt"]["e"], env0, asset_of0)
-                    stated.add(m0[0] if m0 else None)
-            if None not in stated:
-                odd = [p for p in out["postings"] if p[3] not in stated]
-                if odd:
-                    alls = any(s["amt"]["k"] == "all" for s in sends)
-                    ctx.violation({"property": "C03", "class": "asset-differs",
-                                   "construct": "send-all+overdraft-in-other-asset" if alls and "od-upto" in features(inp) else "other"},
-                                  "a posting moves %s although the sends name %s" % (odd[0][3], sorted(stated)),
-                                  {"area": "numscript", "input": inp, "observed": out})
-        if len(sends) == 1 and sends[0]["amt"]["k"] == "mon":
-            env, bal, acct_of, asset_of = resolve_env(inp)
-            m = eval_mon(sends[0]["amt"]["e"], env, asset_of)
-            tot = sum(int(p[2]) for p in out["postings"])
-            if m is not None:
-                if tot > m[1]:
-                    ctx.violation({"property": "C03", "class": "more-than-stated"}, "send of %d moved %d" % (m[1], tot),
-                                  {"area": "numscript", "input": inp, "observed": out})
-                elif not has_kept(sends[0]["dst"]) and tot != m[1]:
-                    ctx.violation({"property": "C03", "class": "not-exact", "src": sends[0]["src"]["k"]},
-                                  "send of %d without `kept` moved %d" % (m[1], tot),
-                                  {"area": "numscript", "input": inp, "observed": out})
+        for sig, what in verdicts(inp, out, exact, ordst):
+            rp.violation(sig, what, inp, out, lambda o, inp=inp, sig=sig: any(s == sig for s, _ in verdicts(inp, o)))
         f = features(inp)
         h = shash(inp["text"] + canon(inp["bal"]))
         if h not in seen and ({"src-inorder", "src-allot", "src-max", "dst-inorder", "dst-allot"} & f):
             nontrivial += 1
         seen.add(h)
+    ctx.cov["ordered_sources_oracle"] = dict(ordst)
+    ctx.cov["replay_isolation"] = dict(rp.stats)
+    ctx.cov["exactness_oracle"] = dict(exact)
     ctx.cov["evaluations"] = len(inputs)
     ctx.cov["distinct_nontrivial"] = nontrivial
     ctx.cov["rule"] = "same generator as C01; non-trivial = distinct accepted case whose send has several sources or destinations or a cap"
